@@ -260,6 +260,18 @@ func runSpec(r *core.Run, rtl bool) int {
 		if pat == nil {
 			pat = g.Random(envOf(opts), false)
 		}
+		if !rtl && i%4 == 1 {
+			// the same pattern as the body of a look-behind: its content runs right to left, so every
+			// opcode's right-to-left half is reached through the left-to-right API as well
+			wrapped := gen.Cat(gen.Look(false, i%8 == 5, pat.AST.Clone()), &gen.Node{K: gen.KEmpty})
+			if rng.Intn(2) == 0 {
+				wrapped.Kids[1] = gen.L(prof.Letters[rng.Intn(len(prof.Letters))])
+			}
+			if p := gen.Finish(wrapped, envOf(opts), false, gen.PrintOpts{}); p != nil && gen.FragmentOK(wrapped) {
+				pat = p
+				l.Count("patterns_wrapped_in_lookbehind", 1)
+			}
+		}
 		if !r.ClaimPattern(fmt.Sprintf("%d/%s", opts, pat.Src)) {
 			l.Count("duplicate_patterns", 1)
 			return
@@ -293,6 +305,7 @@ func runSpec(r *core.Run, rtl bool) int {
 		seenInputs := map[string]bool{}
 		var nontrivial int64
 		bad := false
+		budgetHits := 0
 		try := func(runes []rune) {
 			if bad || r.Stopped() {
 				return
@@ -308,6 +321,13 @@ func runSpec(r *core.Run, rtl bool) int {
 				l.Eval(1)
 				if incon != "" {
 					l.Inconclusive(incon)
+					budgetHits++
+					if budgetHits >= 6 {
+						// a catastrophic pattern for the reference matcher: stop spending the run on it
+						bad = true
+						l.Count("patterns_abandoned_after_budget_hits", 1)
+						return
+					}
 					continue
 				}
 				if want != "nil" {
